@@ -113,7 +113,11 @@ func run(c *core.Case, st *core.CaseStats, seed int64) {
 	case "idlayout":
 		rb := core.RawInt(c.A[0])
 		eff := core.RawInts(c.Out)[0]
-		start := time.Now().Add(-time.Duration(12345678) * time.Millisecond)
+		el := int64(12345678)
+		if len(c.A) > 3 { // b * 2^k + d
+			el = int64(core.RawInt(c.A[1]))<<uint(core.RawInt(c.A[2])) + int64(core.RawInt(c.A[3]))
+		}
+		start := time.Now().Add(-time.Duration(el) * time.Millisecond)
 		g := randz.NewIdGenerator(start, rb)
 		var prev randz.ID = -1
 		for k := 0; k < 4; k++ {
@@ -124,7 +128,7 @@ func run(c *core.Case, st *core.CaseStats, seed int64) {
 			after := time.Since(start).Milliseconds()
 			ms := int64(id) >> uint(eff)
 			r := int64(id) & (int64(1)<<uint(eff) - 1)
-			in := map[string]interface{}{"randBit": rb, "id": int64(id), "window_ms": []int64{before, after}}
+			in := map[string]interface{}{"randBit": rb, "start_ms_ago": el, "id": int64(id), "window_ms": []int64{before, after}}
 			if id < 0 || ms < before || ms > after || r < 0 || r >= int64(1)<<uint(eff) {
 				st.Add(core.Mismatch{Fn: c.Fn, Kind: "value", Case: c, Input: in, Expected: fmt.Sprintf("ms in [%d,%d] above %d random bits", before, after, eff), Actual: []int64{ms, r}})
 			}
